@@ -233,6 +233,11 @@ func c10RunOnce(r *run.Runner, base *FuzzCase, c c10Case, judge bool) (nops int,
 				}
 			case in.FromStore && (fname == "error-before" || fname == "error-after") && faultOnWriteOnly(ex):
 				// the fault hit a write or delete after the lookup had succeeded
+			case in.FromStore && fname == "truncated-body" && closeDelimitedFault(ex):
+				// a close-delimited entry (HTTP/1.0 origin, no length, not chunked) that
+				// lost its tail still decodes - as a shorter response; nothing in the
+				// stored bytes says so. Only the no-panic / no-hang clauses apply.
+				r.Count("truncation_undetectable_close_delimited", 1)
 			case in.FromStore && fname == "truncated-body" && sim.ParseBody(ex.Body).Intact && ex.BodyErr == "":
 				// the cut only removed framing bytes the decoder does not need
 				// (e.g. the tail of a chunked dump): the entry still decodes in full
@@ -505,4 +510,22 @@ func TestC10OddHeaders(t *testing.T) {
 	}
 	r.SetExhaustive(true)
 	r.Done()
+}
+
+
+// closeDelimitedFault: the faulted value's header block carries neither a
+// Content-Length nor a chunked Transfer-Encoding.
+func closeDelimitedFault(ex *sim.Exchange) bool {
+	for _, op := range ex.StoreOps {
+		if op.Fault == "" || !op.Fg {
+			continue
+		}
+		i := bytes.Index(op.Value, []byte("\r\n\r\n"))
+		if i < 0 {
+			return false
+		}
+		block := bytes.ToLower(op.Value[:i])
+		return !bytes.Contains(block, []byte("\r\ncontent-length:")) && !bytes.Contains(block, []byte("\r\ntransfer-encoding: chunked"))
+	}
+	return false
 }
